@@ -13,7 +13,7 @@ RULE = ('(a) two engines, generator level: every ordered pair of actor scripts f
         'retract) x ALL merge orders of their steps (with disjoint vocabularies and, for scripts that clear or intern atoms, with the same atom names on both engines); (b) one engine: every pair (and every triple from a subset) of '
         'side-effect-free queries over disjoint variables (recursion, cut, if-then-else, negation, \\=, once, findall, '
         'infinite enumeration) suspended simultaneously x ALL merge orders of their next() steps (pairs: 4 each, thorough 5; triples: 2 each, thorough 3), including queries over dynamic facts that contain variables; '
-        '(c) two real threads, each with its own engine (assert two facts, enumerate a conjunction, use findall and '
+        '(c) two real threads, each with its own engine (assert two facts, enumerate a conjunction, use findall and, in a 4th body, assert and use facts that contain variables, one of them twice; '
         'retract), under a baton scheduler that makes every traced source line of yldprolog and of the loaded script a '
         'scheduling point: every schedule with <= 1 preemption [thorough: <= 2 for the conjunction body]. Oracle, without hand-written '
         'expectations: the observation log of each actor / query / thread equals the log of the same script run alone. '
@@ -298,6 +298,17 @@ def thread_bodies(pytext, variant):
                 for _ in yp.query('both', [x]):
                     log.append(impl.observe([x]))
                 log.append(yp.atom('a%d' % i) is yp.atom('a%d' % i))
+            elif variant == 3:
+                # facts that contain variables (one of them twice): storing and matching them renames
+                # their variables apart, once per assert and once per use
+                v, w = yp.variable(), yp.variable()
+                yp.assert_fact(yp.atom('same'), [v, yp.functor('h', [v, w]), w])
+                yp.assert_fact(yp.atom('same'), [yp.atom('c%d' % i), yp.variable(), yp.atom('c%d' % i)])
+                z = yp.variable()
+                for _ in yp.query('same', [yp.atom('a%d' % i), y, z]):
+                    log.append(impl.observe([y, z]))
+                for _ in yp.query('same', [x, y, z]):
+                    log.append(impl.observe([x, y, z]))
             else:
                 for _ in yp.query('drop', [x]):
                     log.append(impl.observe([x]))
@@ -319,7 +330,7 @@ os_sep = _os.sep
 # ---------------------------------------------------------------- plan / run
 def plan(tier):
     sh = [('a', k, 32) for k in range(32)] + [('b2', k, 32, 4 if tier == 'quick' else 5) for k in range(32)] + [('b3', k, 16, 2 if tier == 'quick' else 3) for k in range(16)]
-    for variant in range(3):
+    for variant in (0, 1, 2, 3):
         # two preemptions for the conjunction body only (about a million schedules); the findall and
         # retract bodies have more scheduling points and stay at one preemption
         bound = 2 if (tier != 'quick' and variant == 0) else 1
